@@ -66,6 +66,9 @@ class GetService(DPWSPortTypeBase):
                     for handle in requested_handles:
                         state_containers.extend(self._mdib.states.descriptor_handle.get(handle, []))
 
+                # a state that is selected by more than one HandleRef (same handle twice, or a context descriptor
+                # handle plus the handle of one of its states) is reported only once
+                state_containers = list({id(state): state for state in state_containers}.values())
                 self._logger.debug('_on_get_md_state requested Handles:{} found {} states', requested_handles,
                                    len(state_containers))
             # read the version inside the lock: it must be the version that the collected states belong to
